@@ -24,6 +24,7 @@ import Kust.Nameref
 import Kust.Repl
 import Kust.FmtSchema
 import Kust.Match
+import Kust.ReplTree
 import Kust.Gen.Lists
 import Kust.Gen.FieldSpecs
 import Kust.Gen.Lists
@@ -602,8 +603,19 @@ def runMatch (op : String) (a : Json) : Except String Json := do
       (Match.pathMatch (MatchJ.hit ns) ns create path doc)
   | _ => throw s!"unknown match op {op}"
 
+def rtOptsOfJ (j : Json) : Option ReplTree.Opts :=
+  if j.isNull then none else some ⟨jS j "delim", jInt (j.getObjValD "index"), jB j "create"⟩
+
 def runRepl (op : String) (a : Json) : Except String Json := do
   match op with
+  | "tree" =>
+    let ns := predOfJson (a.getObjValD "ns")
+    let src ← nodeOfJson (a.getObjValD "src")
+    let tgt ← nodeOfJson (a.getObjValD "tgt")
+    let spath ← strList (a.getObjValD "spath")
+    let paths ← (jArr (a.getObjValD "paths")).mapM strList
+    return outToJson nodeToJson
+      (ReplTree.replaceInto (MatchJ.hit ns) ns spath (rtOptsOfJ (a.getObjValD "sopts")) src paths (rtOptsOfJ (a.getObjValD "topts")) tgt)
   | "apply" =>
     let st := (jArr (a.getObjValD "state")).map ReplJ.resOfJ
     let rs := (jArr (a.getObjValD "repls")).map ReplJ.replOfJ
